@@ -288,6 +288,15 @@ def tables() -> dict:
     t["variantRegisteredAfterBuild"] = after_build
     # parse_timezone: does the pattern have to match the WHOLE string (fullmatch) or may `$` stop before a trailing newline?
     t["substAnnotatedRecursive"] = _subst_annotated_recursive()
+    # unpack.py, dispatcher of a discriminated union: is only the LOOKUP of the variant's unpacker inside the
+    # `try … except (KeyError, AttributeError)` (the call being made after it), or lookup and call together?
+    usrc = _src("mashumaro/core/meta/types/unpack.py")
+    t["dispatchGuardsLookupOnly"] = False
+    k = usrc.find('lines.indent("except (KeyError, AttributeError):")')
+    if k > 0:
+        j = usrc.rfind('with lines.indent("try:"):', 0, k)
+        seg = usrc[j:k]
+        t["dispatchGuardsLookupOnly"] = "variant_unpacker = " in seg and "return " not in seg and 'return variant_unpacker' in usrc[k:]
     # builder._add_pack_method_lines: the on-demand per-format method hands an instance of another class over
     # to a method compiled for that class (`if self.__class__ is not _method_owner:` + lazy compilation)
     bsrc = _src("mashumaro/core/meta/code/builder.py")
@@ -371,6 +380,7 @@ def render(t: dict) -> str:
     L.append("/-- helpers.substitute_type_params: does the Annotated branch substitute inside the wrapped type (recursive call)? -/")
     L.append("def substAnnotatedRecursive : Bool := " + ("true" if t["substAnnotatedRecursive"] else "false"))
     L.append("/-- builder._add_pack_method_lines: an instance of another class is packed by a method compiled for its own class -/")
+    L.append("def dispatchGuardsLookupOnly : Bool := " + ("true" if t["dispatchGuardsLookupOnly"] else "false"))
     L.append("def packOwnerGuard : Bool := " + ("true" if t["packOwnerGuard"] else "false"))
     L.append("def packOwnerGuardPlain : Bool := " + ("true" if t["packOwnerGuardPlain"] else "false"))
     L.append("")
